@@ -101,6 +101,7 @@ def analyze_type(job, sdl, schema, pkg, rt, ns, t, ci, known, out):
     stats = out["stats"]
     doc_stub = type("D", (), {"definitions": []})()
     ctx = ez.Ctx(schema, doc_stub, pkg, L=job.get("L", 2))
+    ctx.scalar_domain = dict(job.get("scalar_domain") or {})
     r = ezin.build_input(ctx, GraphQLNonNull(t), (), z3.BoolVal(True), job.get("depth", 2))
     stats["nodes"] += len(ctx.nodes)
     C = ezin.coerce_ok(ctx, r, r.expect)
